@@ -2,11 +2,14 @@ package main
 
 import (
 	"fmt"
-	"strconv"
-	"strings"
 	"go/token"
 	"go/types"
 	"math/big"
+	"os"
+	"runtime/debug"
+	"sort"
+	"strconv"
+	"strings"
 
 	"golang.org/x/tools/go/ssa"
 )
@@ -24,6 +27,9 @@ func (x *X) ptrOf(v SV, ptrType types.Type) *PtrV {
 	t, ok := v.(Term)
 	if !ok {
 		panic(fmt.Sprintf("ptrOf: unexpected %T", v))
+	}
+	if t.Sort != SInt && os.Getenv("GOVC_DEBUG") != "" {
+		panic(fmt.Sprintf("ptrOf: term %s of sort %s used as pointer %s\n%s", t.S, t.Sort, ptrType, debug.Stack()))
 	}
 	pt, ok := ptrType.Underlying().(*types.Pointer)
 	if !ok {
@@ -157,6 +163,10 @@ func (x *X) load(st *State, p *PtrV) Term {
 		v = x.enc.structField(t, v, i)
 		t = t.Underlying().(*types.Struct).Field(i).Type()
 	}
+	if p.arrIdx.S != "" {
+		arr := t.Underlying().(*types.Array)
+		v = mkSelect(v, p.arrIdx, x.enc.sortOf(arr.Elem()))
+	}
 	return v
 }
 
@@ -180,8 +190,14 @@ func (x *X) store(st *State, p *PtrV, nv Term) {
 	switch p.kind {
 	case pkLocal, pkGlobal:
 		old := Term{}
-		if len(p.path) > 0 {
+		if len(p.path) > 0 || p.arrIdx.S != "" {
 			old = x.get(st, p.key)
+		}
+		if p.arrIdx.S != "" {
+			q := *p
+			q.arrIdx = Term{}
+			cur := x.load(st, &q)
+			nv = mkStore(cur, p.arrIdx, nv)
 		}
 		st.mem[p.key] = x.vc.define("c_"+p.key, x.withPath(p.typ, old, p.path, nv))
 	case pkObj:
@@ -323,7 +339,7 @@ func (x *X) ilt(a, b Term) Term {
 	}
 	return x.enc.intCmp(token.LSS, a, b, types.Typ[types.Int])
 }
-func (x *X) ic(n int64) Term    { return x.enc.intConstW(big.NewInt(n), 64) }
+func (x *X) ic(n int64) Term { return x.enc.intConstW(big.NewInt(n), 64) }
 
 // toLen converts an integer term of Go type t to the length sort (int).
 func (x *X) toLen(v Term, t types.Type) Term {
@@ -499,17 +515,26 @@ func (x *X) typeTest(v Term, t types.Type) (Term, SV) {
 // implementers lists the concrete module types whose method set satisfies iface.
 func (x *X) implementers(iface *types.Interface) []types.Type {
 	var out []types.Type
-	for _, pkg := range x.prog.AllPackages() {
+	for _, pkg := range sortedPkgs(x.prog) {
 		if pkg.Pkg == nil || !isModulePkg(pkg.Pkg.Path(), x.module) {
 			continue
 		}
-		for _, m := range pkg.Members {
+		for _, m := range sortedMembers(pkg) {
 			tn, ok := m.(*ssa.Type)
 			if !ok {
 				continue
 			}
 			t := tn.Type()
 			if _, isI := t.Underlying().(*types.Interface); isI {
+				continue
+			}
+			// struct types are handled through pointers (constructors of the module
+			// return pointers; a struct value that happens to implement the interface
+			// through an embedded pointer is never stored in an interface)
+			if _, isStruct := t.Underlying().(*types.Struct); isStruct {
+				if pt := types.NewPointer(t); types.Implements(pt, iface) {
+					out = append(out, pt)
+				}
 				continue
 			}
 			if types.Implements(t, iface) {
@@ -519,6 +544,10 @@ func (x *X) implementers(iface *types.Interface) []types.Type {
 			}
 		}
 	}
+	sort.Slice(out, func(i, j int) bool {
+		return out[i].String() < out[j].String()
+	})
+	debugShuffle(len(out), func(i, j int) { out[i], out[j] = out[j], out[i] })
 	return out
 }
 
